@@ -175,6 +175,12 @@ def run(chk):
     chk.assume('|round(x) - x| <= 1/2 (L6); float rounding not modelled')
     from . import c17
     chk.import_from(c17.run, 'C17', ('C17-R2', 'C17-R4'), 'C06-R9')
+    # "the grid total equals the total weight ... x thread/partition settings": a deposit lost to a race between two stripes of one
+    # pass breaks the total, so the write-set argument of C07 (stripe width, parity, phases, the axis that sizes the stripes) is an
+    # obligation of this property too
+    chk.rule('C06-R10', 'parallel front end: no accepted (nthread, npartition, coord) lets two concurrently painted stripes share a grid row (obligations of C07-P1..P7)', 8)
+    from . import c07
+    chk.import_from(c07.run, 'C07', ('C07-P1', 'C07-P2', 'C07-P3', 'C07-P4', 'C07-P5', 'C07-P6', 'C07-P7'), 'C06-R10')
     table(chk, TSC, '_tsc_scatter', 'tsc')
     table(chk, CIC, 'cic_serial', 'cic')
     helpers(chk)
